@@ -69,10 +69,14 @@ def concretize(symbols, rnd, e2e=False):
 FACETS = ["lessThanProperty", "lessThanOrEqualsToProperty", "equalsToProperty", "disjointWithProperty"]
 
 
-def fixed_concretize(symbols):
+OTHER_SPACES = ["\u00a0", "\u2003", "\u3000", "\u2028", "\ufeff", "\x0b", "\x0c"]
+
+
+def fixed_concretize(symbols, other=None):
+    """every L -> 'a'; `other`: what a character outside the grammar's alphabet ('#') is written as"""
     out, offs, pos = [], [], 0
     for c in symbols:
-        t = {"L": "a", " ": " ", "T": "@type", "Q": '"', "#": "#", "B": "\\"}.get(c, c)
+        t = {"L": "a", " ": " ", "T": "@type", "Q": '"', "#": other or "#", "B": "\\"}.get(c, c)
         out.append(t)
         offs.append((pos, pos + len(t)))
         pos += len(t)
@@ -193,7 +197,12 @@ def run(tier):
         s = gen_sentence(rnd, rnd.choice([1, 2, 2, 3]))
         if len(s) > 40:
             continue
-        for cand in [s] + [mutate(s, rnd) for _ in range(8)]:
+        lookalikes = []
+        sp = [k for k, c in enumerate(s) if c == " "]
+        for k in rnd.sample(sp, min(2, len(sp))):
+            lookalikes.append(s[:k] + ["#"] + s[k + 1:])        # a character that only looks like white space
+        lookalikes += [["#"] + s, s + ["#"]]
+        for cand in [s] + [mutate(s, rnd) for _ in range(8)] + lookalikes:
             if cand and cand[0] != " " and cand[-1] != " " and tuple(cand) not in seen:
                 seen.add(tuple(cand))
                 flist.append({"s": cand})
@@ -256,9 +265,39 @@ def run(tier):
         cid = "hist/%d" % n
         hist_rows.append({"id": cid, "s": text, "e2e": False})
         meta[cid] = (c, text, offs)
+    # the same idea end to end (CompileProfile, path as key or as facet argument), with characters that look like
+    # white space but are not the grammar's: sentences first, then strings that differ from a sentence only by such a character
+    sent = [c for _, c in hsrc if c["ok"] and " " in c["s"] and "*" not in c["s"] and "B" not in c["s"]]
+    def collapsed(sym):
+        out = []
+        for c in sym:
+            c = " " if c == "#" else c
+            if c == " " and (not out or out[-1] == " "):
+                continue
+            out.append(c)
+        while out and out[-1] == " ":
+            out.pop()
+        return tuple(out)
+    sent_keys = set(collapsed(c["s"]) for c in sent)
+    near = [c for _, c in hsrc if not c["ok"] and "#" in c["s"] and "*" not in c["s"] and "B" not in c["s"]]
+    # first the strings that become a sentence when the odd character is read as a blank, then the others
+    near.sort(key=lambda c: collapsed(c["s"]) not in sent_keys)
+    twins = [c for c in near if collapsed(c["s"]) in sent_keys]
+    sent = [c for c in sent if collapsed(c["s"]) in set(collapsed(t["s"]) for t in twins)] + sent
+    near = twins + [c for c in near if collapsed(c["s"]) not in sent_keys][:100]
+    e2e_hist = []
+    for n, c in enumerate(sent[:120] + near[:(300 if quick else 3000)]):
+        text, offs = fixed_concretize(c["s"], OTHER_SPACES[n % len(OTHER_SPACES)])
+        cid = "hist-e2e/%d" % n
+        row = {"id": cid, "s": text, "e2e": True}
+        if n % 3 == 2:
+            row["arg"] = FACETS[n % len(FACETS)]
+        e2e_hist.append(row)
+        meta[cid] = (c, text, offs)
     obs = vlib.run_harness("paths", rows, "c16", timeout=3000)
     obs += vlib.run_harness("paths", hist_rows, "c16_hist", shards=4, timeout=3000)
-    rows = rows + hist_rows
+    obs += vlib.run_harness("paths", e2e_hist, "c16_hist_e2e", shards=4, timeout=3000)
+    rows = rows + hist_rows + e2e_hist
     naccept = 0
     e2e_n = 0
     for o in obs:
